@@ -2225,8 +2225,29 @@ pub struct InternedFill<'db> {
 /// Take the pending resolved program out of the slot and intern it as a
 /// tracked struct, inside the query graph where tracked-struct creation is
 /// legal.
+///
+/// This query has no key besides the database, so it is memoized once: it serves
+/// databases that check a single program. A database that checks several
+/// programs uses [`intern_pending_for`].
 #[salsa::tracked]
 pub fn intern_pending<'db>(db: &'db dyn TyckDb) -> ScopedData<'db> {
+    take_pending(db)
+}
+
+/// One use of the pending-parts slot.
+#[salsa::interned]
+pub struct PendingTicket<'db> {
+    pub serial: u64,
+}
+
+/// [`intern_pending`] keyed by a ticket, so that every externally resolved program
+/// handed to one database is interned (and then checked) on its own.
+#[salsa::tracked]
+pub fn intern_pending_for<'db>(db: &'db dyn TyckDb, _ticket: PendingTicket<'db>) -> ScopedData<'db> {
+    take_pending(db)
+}
+
+fn take_pending<'db>(db: &'db dyn TyckDb) -> ScopedData<'db> {
     let parts = db
         .pending_parts()
         .lock()
